@@ -130,6 +130,13 @@ def Ev.file : Ev → File
 
 def init (w : World) : St := { sem := w.par }
 
+/-- `compile(f)` is only ever called for a requested file or for the import a task is currently
+    looking at in its dependency loop -/
+def spawnOk (w : World) (s : St) (f : File) : Bool :=
+  w.req.contains f || s.tasks.any (fun x => match x.2.pc with
+    | .deps i => (w.imports x.1)[i]? == some f
+    | _ => false)
+
 def isFinished (s : St) (f : File) : Bool :=
   match s.task f with
   | some t => (match t.pc with | .finished _ => true | _ => false)
@@ -141,7 +148,7 @@ def cancelOk (w : World) (s : St) : Bool := w.cancelable || w.req.all (isFinishe
 
 /-- One transition. `none` = the event is not enabled in this state. -/
 def step (w : World) (s : St) : Ev → Option St
-  | .spawn f => if s.crashed then none else
+  | .spawn f => if s.crashed || !(spawnOk w s f) then none else
       match s.task f with
       | some _ => none
       | none => some (s.set f { pc := .spawned })
@@ -246,7 +253,7 @@ def step (w : World) (s : St) : Ev → Option St
         match t.pc with
         | .panicking => some (s.set f { t with pc := .failing .panic })
         -- Close() panicked on an error path where the permit was already released
-        | .failing _ => if w.fault f == some .closePanic && !t.holds then
+        | .failing c => if w.fault f == some .closePanic && !t.holds && c != .panic then
             some (s.set f { t with pc := .failing .panic }) else none
         -- context cancelled while waiting for a dependency, then Close() panicked
         | .waiting _ => if w.fault f == some .closePanic && cancelOk w s then
